@@ -552,8 +552,10 @@ impl Prioritize {
             ]
         });
         // Streams over the max concurrent count should not have capacity assign to avoid starving the connection
-        // capacity for open streams
-        if stream.is_pending_open {
+        // capacity for open streams. The same goes for a pushed stream whose
+        // PUSH_PROMISE has not been written yet: it cannot send anything, and
+        // if the promise is dropped (the parent was reset first) it never will.
+        if stream.is_pending_open || stream.is_pending_push {
             return;
         }
 
@@ -1120,6 +1122,10 @@ impl Prioritize {
                                 if counts.can_inc_num_send_streams() {
                                     counts.inc_num_send_streams(&mut pushed);
                                     self.pending_send.push(&mut pushed);
+                                    // Capacity is not assigned while the
+                                    // promise is pending (see
+                                    // `try_assign_capacity`): do it now.
+                                    self.try_assign_capacity(&mut pushed);
                                 } else {
                                     self.queue_open(&mut pushed);
                                 }
